@@ -50,6 +50,7 @@ Result of parse(text) (JSON-able; every list keeps source order; nothing is de-d
            | {"k": "switch", "sel": sigspec, "attrs", "cases": [{"patterns": [sigspec...] ([] = default), "attrs",
                                                                  "body": [item...], "line"}], "line"}
   const    = {"t": "int", "v": n} | {"t": "str", "v": text} | {"t": "bits", "w": n, "bits": "<MSB first>", "s": bool}
+             (digits are truncated / extended to the width as Yosys does; "ndigits": k is added when k != w digits were written)
              (+ "signed": True / "real": True when the parameter statement carried that keyword)
   sigspec  = {"chunks": [chunk...], "width": n | None}          chunks are listed LSB FIRST
   chunk    = {"k": "const", "bits": "<bit i at index i, LSB first>", "width": n}
@@ -247,14 +248,17 @@ def _const_from_token(st, t):
         if signed:
             bits = bits[1:]
         w = int(w)
+        nd = len(bits)
         if len(bits) > w:
-            raise st.err("constant %s has more digits than its width" % v, t)
+            # more digits than the width: grammatical; Yosys keeps the least significant `w` digits
+            # (amaranth writes the zero-width constant as 0'0)
+            bits = bits[len(bits) - w:]
         if len(bits) < w:
-            # Yosys extends short constants with the MSB for x/z and with 0 otherwise; amaranth never relies on it
+            # fewer digits: Yosys extends with the most significant digit if it is x or z, with 0 otherwise
             pad = bits[0] if bits and bits[0] in "xz" else "0"
-            if not bits and w:
-                pad = "0"
             bits = pad * (w - len(bits)) + bits
+        if nd != w:
+            return {"t": "bits", "w": w, "bits": bits, "s": signed, "ndigits": nd}
         return {"t": "bits", "w": w, "bits": bits, "s": signed}
     raise st.err("expected a constant, found %r" % (v,), t)
 
